@@ -3,7 +3,8 @@
    have the value of the original ones (hypothesis [rw_ok]), every expression of the original problem evaluates alike
    ([eval_clean]: it mentions no negation fluent), the compiled action fires the original effect instances followed by
    their mirrors ([n_effects_fired]), and the successor states are related again provided the assignments that fire on
-   one ground negated fluent carry one value ([ncr_safe]). *)
+   one ground negated fluent carry one value ([one_value]; decidable sufficient condition [ncr_safe]): [neg_step],
+   [neg_run], [neg_valid_plan] (compiled verdict from the related state = original verdict, for every plan). *)
 From Coq Require Import List ZArith NArith QArith Qcanon Bool Lia.
 Import ListNotations.
 Require Import UPV.Core.Expr UPV.Core.Eval UPV.Core.Interp UPV.Planning.Problem UPV.Planning.Sem.
@@ -90,6 +91,36 @@ Section NegEval.
     - rewrite !eval_ELt, (IHe1 I I' HR), (IHe2 I I' HR) by assumption. reflexivity.
     - rewrite !eval_EEquals, (IHe1 I I' HR), (IHe2 I I' HR) by assumption. reflexivity.
   Qed.
+
+  Lemma evals_clean sc I I' args : nrel_interp nmap I I' -> forallb (clean nmap) args = true ->
+    evals sc I' args = evals sc I args.
+  Proof.
+    intros HR. induction args as [|x l IH]; intros H; [reflexivity|]. cbn [forallb] in H. nfsplit. cbn [evals].
+    rewrite (eval_clean sc x I I' HR), IH by assumption. reflexivity.
+  Qed.
+
+  (* the reference rewriting [nrw] (walk_not on a fluent) is exact under the invariant on [nrw_dom] *)
+  Lemma nrw_exact e : forall I I', nrel_interp nmap I I' -> nrw_dom nmap e = true ->
+    eval false (nrw (ng nmap) e) I' = eval false e I.
+  Proof.
+    induction e using expr_ind'; intros I I' HR Hd;
+      try (cbn [nrw]; apply (eval_clean false _ I I' HR); exact Hd).
+    - cbn [nrw nrw_dom] in *. rewrite !eval_EAnd.
+      replace (ebools false I' (map (nrw (ng nmap)) l)) with (ebools false I l); [reflexivity|].
+      induction H as [|x l' Hx _ IH']; [reflexivity|]. cbn [forallb] in Hd. nfsplit. cbn [map ebools].
+      rewrite (Hx I I' HR), IH' by assumption. reflexivity.
+    - cbn [nrw nrw_dom] in *. rewrite !eval_EOr.
+      replace (ebools false I' (map (nrw (ng nmap)) l)) with (ebools false I l); [reflexivity|].
+      induction H as [|x l' Hx _ IH']; [reflexivity|]. cbn [forallb] in Hd. nfsplit. cbn [map ebools].
+      rewrite (Hx I I' HR), IH' by assumption. reflexivity.
+    - destruct e; try (cbn [nrw]; apply (eval_clean false _ I I' HR); exact Hd).
+      cbn [nrw nrw_dom] in *. destruct (ng nmap f) as [nf|] eqn:En.
+      + nfsplit. rewrite eval_ENot, !eval_EFluent. rewrite (evals_clean false I I' args HR) by assumption.
+        destruct (evals false I args) as [vs|]; [|reflexivity].
+        destruct HR as (_ & _ & _ & _ & _ & H6). rewrite (H6 f nf vs En). unfold compl, as_bool.
+        destruct (fl I f vs) as [[b| |]|]; reflexivity.
+      + apply (eval_clean false _ I I' HR). exact Hd.
+  Qed.
 End NegEval.
 
 Require Import UPV.Proofs.Variants_proofs.
@@ -117,7 +148,8 @@ Section NegProofs.
 
   Hypothesis Hmap : nmap_ok nmap P = true.
   Hypothesis Hclean : problem_clean nmap P = true.
-  Hypothesis Hsafe : ncr_safe nmap P = true.
+  Hypothesis Hconst : ncr_const nmap P = true.
+  Hypothesis Hone : one_value nmap P.
   Hypothesis Hrw : rw_ok nmap rw P.
   Hypothesis Hsmp : smp_exact smp.
 
@@ -318,7 +350,546 @@ Section NegProofs.
     destruct (has_err (eres I' (flat_map (mirror nmap smp) (map (n_effect rw) effs)))) eqn:Eh2; [|reflexivity].
     rewrite (fired_E2 I I' effs HR HF Eh2) in Eh. discriminate.
   Qed.
+
+  (* ================================================================== plan level *)
+  (* ---- what the decidable hypotheses give per action *)
+  Lemma const_bool_eq e b : const_bool e = Some b -> e = EBool b.
+  Proof. destruct e; try discriminate. intros H; inversion H; reflexivity. Qed.
+
+  Lemma clean_split :
+    (forall aid a, In (aid, a) (p_actions P) ->
+       forallb (clean nmap) (a_pre a) = true /\ forallb (effect_clean nmap) (a_effs a) = true) /\
+    forallb (clean nmap) (p_goals P) = true /\ forallb (clean nmap) (p_invs P) = true.
+  Proof.
+    pose proof Hclean as Hc. unfold problem_clean in Hc. apply andb_true_iff in Hc. destruct Hc as [H12 H3].
+    apply andb_true_iff in H12. destruct H12 as [H1 H2]. split; [|split; assumption].
+    intros aid a Hin. rewrite forallb_forall in H1. specialize (H1 _ Hin). cbn [snd] in H1.
+    apply andb_true_iff in H1. exact H1.
+  Qed.
+
+  Lemma const_split aid a e nf : In (aid, a) (p_actions P) -> In e (a_effs a) -> ngf (e_fl e) = Some nf ->
+    is_kassign e = true /\ exists b, e_val e = EBool b.
+  Proof.
+    intros Hin He Hn. pose proof Hconst as Hs. unfold ncr_const in Hs. rewrite forallb_forall in Hs.
+    specialize (Hs _ Hin). cbn [snd] in Hs. unfold action_const in Hs. rewrite forallb_forall in Hs.
+    pose proof (Hs e He) as H1. rewrite Hn in H1. apply andb_true_iff in H1. destruct H1 as [Hk Hv].
+    split; [exact Hk|]. destruct (const_bool (e_val e)) as [b|] eqn:Eb; [|discriminate].
+    exists b. apply const_bool_eq; exact Eb.
+  Qed.
+
+  Lemma action_eff_hyp aid a : In (aid, a) (p_actions P) -> Forall eff_hyp (a_effs a).
+  Proof.
+    intros Hin. apply Forall_forall. intros e He. destruct clean_split as [Hc _].
+    destruct (Hc aid a Hin) as [_ Hce]. rewrite forallb_forall in Hce. split; [apply Hce; exact He|]. split.
+    - unfold conds_of. apply in_or_app. left. apply in_flat_map. exists (aid, a). split; [exact Hin|]. cbn [snd].
+      apply in_or_app. right. apply in_map. exact He.
+    - intros nf Hn. exact (const_split aid a e nf Hin He Hn).
+  Qed.
+
+  (* ---- the fired effect instances of an original action: no key on a negation fluent; the instances on a negated
+     fluent are assignments of Booleans, and those on ONE ground negated fluent carry one value *)
+  Definition acts_good (acts : list aeff) : Prop :=
+    (forall x, In x acts -> isn (fst (ae_key x)) = false) /\
+    (forall x nf, In x acts -> ngf (fst (ae_key x)) = Some nf -> is_assign x = true /\ exists b, ae_val x = VBool b) /\
+    (forall x y, In x acts -> In y acts -> ngf (fst (ae_key x)) <> None -> ae_key x = ae_key y -> ae_val x = ae_val y).
+
+  Lemma in_acts_eres I effs x : In x (acts_of (eres I effs)) -> exists e, In e effs /\ In x (acts_of (pieceI I e)).
+  Proof.
+    induction effs as [|e l IH]; [intros []|]. rewrite eres_cons, acts_of_app. intros H. apply in_app_or in H.
+    destruct H as [H|H]; [exists e; split; [left; reflexivity | exact H]|].
+    destruct (IH H) as [e' [H1 H2]]. exists e'. split; [right; exact H1 | exact H2].
+  Qed.
+
+  Lemma fired_good s aid a args acts : In (aid, a) (p_actions P) ->
+    all_hold false (mk_interp P s (zip_params (a_params a) args)) (a_pre a) = true ->
+    fired false (mk_interp P s (zip_params (a_params a) args)) (a_effs a) = Some acts -> acts_good acts.
+  Proof.
+    intros Hin Hpre HF. pose proof (Hone s aid a args acts Hin Hpre HF) as H1.
+    rewrite fired_eres, collect_res_spec in HF.
+    destruct (has_err (eres (mk_interp P s (zip_params (a_params a) args)) (a_effs a))); [discriminate|].
+    inversion HF; subst acts. clear HF. destruct clean_split as [Hc _]. destruct (Hc aid a Hin) as [_ Hce].
+    rewrite forallb_forall in Hce. split; [|split].
+    - intros x Hx. destruct (in_acts_eres _ _ x Hx) as [e [He Hxe]]. destruct (piece_keys _ e x Hxe) as [-> _].
+      destruct (effect_clean_split e (Hce e He)) as [Hi _]. exact Hi.
+    - intros x nf Hx Hn. destruct (in_acts_eres _ _ x Hx) as [e [He Hxe]].
+      destruct (piece_keys _ e x Hxe) as (Kf & Kk & Kv). rewrite Kf in Hn.
+      destruct (const_split aid a e nf Hin He Hn) as [Hk [b Hb]]. split.
+      + unfold is_assign. rewrite Kk. exact Hk.
+      + exists b. apply Kv. exact Hb.
+    - exact H1.
+  Qed.
+
+  (* ---- assignments and deltas per ground fluent *)
+  Lemma filter_nil {A} (p : A -> bool) l : (forall x, In x l -> p x = false) -> filter p l = [].
+  Proof.
+    induction l as [|x l IH]; intros H; [reflexivity|]. cbn [filter]. rewrite (H x (or_introl eq_refl)).
+    apply IH. intros y Hy. apply H. right; exact Hy.
+  Qed.
+
+  Lemma forallb_ext_in {A} (f g : A -> bool) l : (forall x, In x l -> f x = g x) -> forallb f l = forallb g l.
+  Proof.
+    induction l as [|x l IH]; intros H; [reflexivity|]. cbn [forallb]. rewrite (H x (or_introl eq_refl)), IH; [reflexivity|].
+    intros y Hy. apply H. right; exact Hy.
+  Qed.
+
+  Lemma avals_app k l1 l2 : avals k (l1 ++ l2) = avals k l1 ++ avals k l2.
+  Proof. unfold avals. rewrite filter_app, map_app. reflexivity. Qed.
+  Lemma deltas_app k l1 l2 : deltas k (l1 ++ l2) = deltas k l1 ++ deltas k l2.
+  Proof. unfold deltas. rewrite filter_app, map_app. reflexivity. Qed.
+
+  Lemma gfl_eqb_fst_ne a b : fst a <> fst b -> gfl_eqb a b = false.
+  Proof. intros H. unfold gfl_eqb. destruct (fst a =? fst b)%N eqn:E; [apply N.eqb_eq in E; contradiction | reflexivity]. Qed.
+
+  Lemma in_macts acts y : In y (macts acts) ->
+    exists x nf, In x acts /\ ngf (fst (ae_key x)) = Some nf /\ y = mk_neg nf x.
+  Proof.
+    unfold macts. rewrite in_flat_map. intros [x [Hx Hy]]. destruct (ngf (fst (ae_key x))) as [nf|] eqn:En; [|destruct Hy].
+    destruct Hy as [<-|[]]. exists x, nf. repeat split; assumption.
+  Qed.
+
+  Lemma isn_ne g h : isn g = false -> isn h = true -> h <> g.
+  Proof. intros H1 H2 E. subst. congruence. Qed.
+
+  (* a key that is not a negation fluent sees no mirrored instance *)
+  Lemma macts_nonneg k acts : isn (fst k) = false -> avals k (macts acts) = [] /\ deltas k (macts acts) = [].
+  Proof.
+    intros Hk. unfold avals, deltas.
+    assert (G : forall y, In y (macts acts) -> gfl_eqb (ae_key y) k = false).
+    { intros y Hy. destruct (in_macts acts y Hy) as (x & nf & _ & Hn & ->). apply gfl_eqb_fst_ne.
+      cbn [mk_neg ae_key fst]. apply (isn_ne _ _ Hk (ng_isn _ _ Hn)). }
+    split; rewrite filter_nil; try reflexivity; intros y Hy; rewrite (G y Hy); reflexivity.
+  Qed.
+
+  (* a negation fluent is not touched by the original instances *)
+  Lemma acts_neg nf args acts : acts_good acts -> isn nf = true ->
+    avals (nf, args) acts = [] /\ deltas (nf, args) acts = [].
+  Proof.
+    intros [Hg _] Hn. unfold avals, deltas.
+    assert (G : forall y, In y acts -> gfl_eqb (ae_key y) (nf, args) = false).
+    { intros y Hy. apply gfl_eqb_fst_ne. cbn [fst]. intros E. specialize (Hg y Hy). rewrite E in Hg. congruence. }
+    split; rewrite filter_nil; try reflexivity; intros y Hy; rewrite (G y Hy); reflexivity.
+  Qed.
+
+  Lemma is_assign_mk_neg nf x : is_assign (mk_neg nf x) = is_assign x.
+  Proof. reflexivity. Qed.
+
+  (* the mirrored instances on nf(args) are the instances on f(args), values complemented *)
+  Lemma macts_avals f nf args l : ngf f = Some nf ->
+    avals (nf, args) (macts l) = map negv (avals (f, args) l).
+  Proof.
+    intros Hn. induction l as [|x l IH]; [reflexivity|].
+    change (macts (x :: l)) with ((match ngf (fst (ae_key x)) with Some nf => [mk_neg nf x] | None => [] end) ++ macts l).
+    rewrite avals_app, IH. change (x :: l) with ([x] ++ l). rewrite (avals_app (f, args)), map_app. f_equal.
+    unfold avals. cbn [filter].
+    destruct (ngf (fst (ae_key x))) as [nf'|] eqn:En.
+    - cbn [filter]. rewrite is_assign_mk_neg. unfold gfl_eqb. cbn [mk_neg ae_key fst snd].
+      destruct (nf' =? nf)%N eqn:E1.
+      + apply N.eqb_eq in E1. subst nf'. rewrite (ng_inj _ _ _ En Hn), N.eqb_refl.
+        destruct (values_eqb (snd (ae_key x)) args); destruct (is_assign x); reflexivity.
+      + destruct (fst (ae_key x) =? f)%N eqn:E2; [|reflexivity].
+        apply N.eqb_eq in E2. rewrite E2 in En. rewrite En in Hn. inversion Hn; subst. rewrite N.eqb_refl in E1. discriminate.
+    - unfold gfl_eqb. cbn [fst snd]. destruct (fst (ae_key x) =? f)%N eqn:E2; [|reflexivity].
+      apply N.eqb_eq in E2. rewrite E2 in En. congruence.
+  Qed.
+
+  Lemma macts_deltas k acts : acts_good acts -> deltas k (macts acts) = [].
+  Proof.
+    intros (_ & Hg & _). unfold deltas. rewrite filter_nil; [reflexivity|]. intros y Hy.
+    destruct (in_macts acts y Hy) as (x & nf & Hx & Hn & ->). rewrite is_assign_mk_neg.
+    destruct (Hg x nf Hx Hn) as [-> _]. apply andb_false_r.
+  Qed.
+
+  Lemma acts_deltas_negated f nf args acts : acts_good acts -> ngf f = Some nf -> deltas (f, args) acts = [].
+  Proof.
+    intros (_ & Hg & _) Hn. unfold deltas. rewrite filter_nil; [reflexivity|]. intros y Hy.
+    destruct (gfl_eqb (ae_key y) (f, args)) eqn:E; [|reflexivity]. apply gfl_eqb_eq in E.
+    assert (Hf : fst (ae_key y) = f) by (rewrite E; reflexivity). rewrite <- Hf in Hn.
+    destruct (Hg y nf Hy Hn) as [-> _]. reflexivity.
+  Qed.
+
+  Lemma acts_avals_const f nf args acts : acts_good acts -> ngf f = Some nf ->
+    exists b, Forall (fun v => v = VBool b) (avals (f, args) acts).
+  Proof.
+    intros (_ & Hg & Hv) Hn. unfold avals.
+    destruct (filter (fun a => gfl_eqb (ae_key a) (f, args) && is_assign a) acts) as [|x0 r] eqn:EF.
+    - exists true. constructor.
+    - assert (H0 : In x0 (filter (fun a => gfl_eqb (ae_key a) (f, args) && is_assign a) acts)) by (rewrite EF; left; reflexivity).
+      apply filter_In in H0. destruct H0 as [Hx0 Hk0]. apply andb_true_iff in Hk0. destruct Hk0 as [Hk0 _].
+      apply gfl_eqb_eq in Hk0. assert (Hf0 : fst (ae_key x0) = f) by (rewrite Hk0; reflexivity).
+      assert (Hn0 : ngf (fst (ae_key x0)) = Some nf) by (rewrite Hf0; exact Hn).
+      destruct (Hg x0 nf Hx0 Hn0) as [_ [b Hb]]. exists b. rewrite <- EF.
+      apply Forall_forall. intros v Hv0. apply in_map_iff in Hv0. destruct Hv0 as [y [<- Hy]].
+      apply filter_In in Hy. destruct Hy as [Hy Hky]. apply andb_true_iff in Hky. destruct Hky as [Hky _].
+      apply gfl_eqb_eq in Hky. rewrite <- Hb. symmetry. apply Hv; [exact Hx0 | exact Hy | congruence | congruence].
+  Qed.
+
+  Lemma existsb_const b A : Forall (fun v => v = VBool b) A -> A <> [] ->
+    existsb is_vtrue A = b /\ existsb is_vtrue (map negv A) = negb b.
+  Proof.
+    induction 1 as [|v A Hv HA IH]; intros Hne; [contradiction|]. subst v. cbn [map existsb negv is_vtrue].
+    destruct A as [|w A].
+    - cbn [map existsb]. destruct b; split; reflexivity.
+    - destruct IH as [-> ->]; [discriminate|]. destruct b; split; reflexivity.
+  Qed.
+
+  (* ---- fluent declarations of the compiled problem *)
+  Lemma ibf_nonneg g : isn g = false -> is_bool_fluent P' g = is_bool_fluent P g.
+  Proof.
+    intros Hg. unfold is_bool_fluent. change (p_fluents P') with (n_fluents nmap (p_fluents P)).
+    induction (p_fluents P) as [|fd fls IH]; [reflexivity|]. unfold n_fluents in *. cbn [flat_map].
+    change ((fd :: match ngf (fd_id fd) with Some nf => [{| fd_id := nf; fd_sig := fd_sig fd; fd_ty := fd_ty fd |}] | None => [] end) ++
+            flat_map (fun fd0 => fd0 :: match ngf (fd_id fd0) with
+                                        | Some nf0 => [{| fd_id := nf0; fd_sig := fd_sig fd0; fd_ty := fd_ty fd0 |}]
+                                        | None => [] end) fls)
+      with (fd :: (match ngf (fd_id fd) with Some nf => [{| fd_id := nf; fd_sig := fd_sig fd; fd_ty := fd_ty fd |}] | None => [] end ++
+            flat_map (fun fd0 => fd0 :: match ngf (fd_id fd0) with
+                                        | Some nf0 => [{| fd_id := nf0; fd_sig := fd_sig fd0; fd_ty := fd_ty fd0 |}]
+                                        | None => [] end) fls)).
+    cbn [existsb]. f_equal. rewrite existsb_app, IH.
+    destruct (ngf (fd_id fd)) as [nf|] eqn:En; [|reflexivity]. cbn [existsb fd_id].
+    destruct (nf =? g)%N eqn:E; [|reflexivity]. apply N.eqb_eq in E. subst. rewrite (ng_isn _ _ En) in Hg. discriminate.
+  Qed.
+
+  Lemma in_n_fluents fd nf : In fd (p_fluents P) -> ngf (fd_id fd) = Some nf ->
+    In {| fd_id := nf; fd_sig := fd_sig fd; fd_ty := fd_ty fd |} (p_fluents P').
+  Proof.
+    intros Hin Hn. change (p_fluents P') with (n_fluents nmap (p_fluents P)). unfold n_fluents. apply in_flat_map.
+    exists fd. split; [exact Hin|]. right. rewrite Hn. left. reflexivity.
+  Qed.
+
+  Lemma ibf_neg f nf : ngf f = Some nf -> is_bool_fluent P f = true /\ is_bool_fluent P' nf = true.
+  Proof.
+    intros Hn. pose proof Hmap as Hm. unfold nmap_ok in Hm. apply andb_true_iff in Hm. destruct Hm as [Hm _].
+    apply andb_true_iff in Hm. destruct Hm as [_ Hdecl]. rewrite forallb_forall in Hdecl.
+    specialize (Hdecl _ (lookupN_In _ _ _ Hn)). cbn [fst] in Hdecl. apply existsb_exists in Hdecl.
+    destruct Hdecl as [fd [Hfd E]]. apply N.eqb_eq in E. destruct map_facts as (_ & _ & _ & Hty).
+    rewrite <- E in Hn. pose proof (Hty fd nf Hfd Hn) as Ety. unfold is_bool_fluent. split; apply existsb_exists.
+    - exists fd. split; [exact Hfd|]. rewrite E, N.eqb_refl, Ety. reflexivity.
+    - exists {| fd_id := nf; fd_sig := fd_sig fd; fd_ty := fd_ty fd |}. split; [apply in_n_fluents; assumption|].
+      cbn [fd_id fd_ty]. rewrite N.eqb_refl, Ety. reflexivity.
+  Qed.
+
+  (* ---- the per-fluent combination *)
+  Lemma spec_fluent_nonneg s s' acts k : neg_rel nmap s s' -> isn (fst k) = false ->
+    spec_fluent P' s' (acts ++ macts acts) k = spec_fluent P s acts k.
+  Proof.
+    intros [HR _] Hk. unfold spec_fluent. rewrite avals_app, deltas_app.
+    destruct (macts_nonneg k acts Hk) as [-> ->]. rewrite !app_nil_r, (ibf_nonneg _ Hk), (HR _ _ Hk). reflexivity.
+  Qed.
+
+  Lemma spec_fluent_neg s s' acts f nf args : neg_rel nmap s s' -> acts_good acts -> ngf f = Some nf ->
+    match spec_fluent P s acts (f, args), spec_fluent P' s' (acts ++ macts acts) (nf, args) with
+    | CUnchanged, CUnchanged => True
+    | CVal v, CVal v' => Some v' = compl (Some v)
+    | _, _ => False
+    end.
+  Proof.
+    intros HR Hg Hn. unfold spec_fluent. cbn [fst snd]. rewrite avals_app, deltas_app.
+    destruct (acts_neg nf args acts Hg (ng_isn _ _ Hn)) as [-> ->]. cbn [app].
+    rewrite (macts_avals f nf args acts Hn), (macts_deltas _ acts Hg), (acts_deltas_negated f nf args acts Hg Hn).
+    destruct (ibf_neg f nf Hn) as [-> ->]. destruct (acts_avals_const f nf args acts Hg Hn) as [b Hb].
+    destruct (avals (f, args) acts) as [|a A] eqn:EA; [exact I|].
+    destruct (existsb_const b (a :: A) Hb) as [E1 E2]; [discriminate|].
+    cbn [map combine]. change (negv a :: map negv A) with (map negv (a :: A)). rewrite E1, E2. reflexivity.
+  Qed.
+
+  Lemma effects_ok_rel s s' acts : neg_rel nmap s s' -> acts_good acts ->
+    spec_effects_ok P' s' (acts ++ macts acts) = spec_effects_ok P s acts.
+  Proof.
+    intros HR Hg. unfold spec_effects_ok. rewrite forallb_app.
+    replace (forallb (fun a => match spec_fluent P' s' (acts ++ macts acts) (ae_key a) with CFail => false | _ => true end) (macts acts))
+      with true.
+    - rewrite andb_true_r. apply forallb_ext_in. intros x Hx. pose proof Hg as [Hg1 _].
+      rewrite (spec_fluent_nonneg s s' acts (ae_key x) HR (Hg1 x Hx)). reflexivity.
+    - symmetry. apply forallb_forall. intros y Hy. destruct (in_macts acts y Hy) as (x & nf & Hx & Hn & ->).
+      cbn [mk_neg ae_key]. pose proof (spec_fluent_neg s s' acts _ nf (snd (ae_key x)) HR Hg Hn) as H.
+      destruct (spec_fluent P s acts (fst (ae_key x), snd (ae_key x)));
+        destruct (spec_fluent P' s' (acts ++ macts acts) (nf, snd (ae_key x))); try reflexivity; destruct H.
+  Qed.
+
+  (* ---- successor states stay related *)
+  Lemma succ_rel s s' acts : neg_rel nmap s s' -> acts_good acts ->
+    neg_rel nmap (spec_succ P s acts) (spec_succ P' s' (acts ++ macts acts)).
+  Proof.
+    intros HR Hg. split.
+    - intros g args Hgn. unfold spec_succ. rewrite (spec_fluent_nonneg s s' acts (g, args) HR Hgn).
+      destruct HR as [H1 _]. rewrite (H1 _ _ Hgn). reflexivity.
+    - intros f nf args Hn. unfold spec_succ. pose proof (spec_fluent_neg s s' acts f nf args HR Hg Hn) as H.
+      destruct (spec_fluent P s acts (f, args)); destruct (spec_fluent P' s' (acts ++ macts acts) (nf, args));
+        try (destruct H; fail).
+      + destruct HR as [_ H2]. apply H2. exact Hn.
+      + exact H.
+  Qed.
+
+  (* ---- conditions *)
+  Lemma all_hold_map_rel J J' (f : expr -> expr) l :
+    (forall x, In x l -> eval false (f x) J' = eval false x J) -> all_hold false J' (map f l) = all_hold false J l.
+  Proof.
+    induction l as [|x l IH]; intros H; [reflexivity|]. cbn [map].
+    change (all_hold false J' (f x :: map f l)) with (holds false J' (f x) && all_hold false J' (map f l)).
+    change (all_hold false J (x :: l)) with (holds false J x && all_hold false J l).
+    unfold holds at 1 2. rewrite (H x (or_introl eq_refl)), IH; [reflexivity|]. intros y Hy. apply H. right; exact Hy.
+  Qed.
+
+  Lemma all_hold_clean J J' l : nrel_interp nmap J J' -> forallb (clean nmap) l = true ->
+    all_hold false J' l = all_hold false J l.
+  Proof.
+    intros HR Hc. rewrite <- (map_id l) at 1. apply all_hold_map_rel. intros x Hx.
+    rewrite forallb_forall in Hc. apply (eval_clean nmap false x J J' HR). apply Hc. exact Hx.
+  Qed.
+
+  Lemma in_conds_pre aid a x : In (aid, a) (p_actions P) -> In x (a_pre a) -> In x (conds_of P).
+  Proof.
+    intros Hin Hx. unfold conds_of. apply in_or_app. left. apply in_flat_map. exists (aid, a). split; [exact Hin|].
+    cbn [snd]. apply in_or_app. left. exact Hx.
+  Qed.
+  Lemma in_conds_goal x : In x (p_goals P) -> In x (conds_of P).
+  Proof. intros Hx. unfold conds_of. apply in_or_app. right. apply in_or_app. left. exact Hx. Qed.
+  Lemma in_conds_inv x : In x (p_invs P) -> In x (conds_of P).
+  Proof. intros Hx. unfold conds_of. apply in_or_app. right. apply in_or_app. right. exact Hx. Qed.
+
+  Lemma pre_rel J J' aid a : nrel_interp nmap J J' -> In (aid, a) (p_actions P) ->
+    all_hold false J' (a_pre (n_action nmap rw smp a)) = all_hold false J (a_pre a).
+  Proof.
+    intros HR Hin. cbn [n_action a_pre]. rewrite all_hold_add_pres. apply all_hold_map_rel. intros x Hx.
+    apply Hrw; [apply (in_conds_pre aid a x Hin Hx) | exact HR].
+  Qed.
+
+  Lemma goals_rel t t' : neg_rel nmap t t' -> goals_hold false P' t' = goals_hold false P t.
+  Proof.
+    intros HR. unfold goals_hold. change (p_goals P') with (add_goals (map rw (p_goals P))). unfold add_goals.
+    rewrite all_hold_filter_true. apply all_hold_map_rel. intros x Hx.
+    apply Hrw; [apply in_conds_goal; exact Hx | apply nrel_mk; exact HR].
+  Qed.
+
+  (* ---- bounded types: the negation fluents are Boolean, they add no bound *)
+  Definition binv_of (Q : problem) (fd : fdecl) : list expr :=
+    match fd_ty fd with
+    | FNum lo hi =>
+        flat_map (fun a =>
+          let fe := EFluent (fd_id fd) (map value_expr a) in
+          (match lo with Some l => [ELe (num_node l) fe] | None => [] end) ++
+          (match hi with Some h => [ELe fe (num_node h)] | None => [] end))
+          (arg_tuples Q (fd_sig fd))
+    | _ => []
+    end.
+
+  Lemma bound_invs_binv Q : bound_invs Q = flat_map (binv_of Q) (p_fluents Q).
+  Proof. reflexivity. Qed.
+
+  Lemma bound_invs_neg : bound_invs P' = bound_invs P.
+  Proof.
+    rewrite !bound_invs_binv. change (p_fluents P') with (n_fluents nmap (p_fluents P)).
+    rewrite (flat_map_ext (binv_of P') (binv_of P))
+      by (intros fd; unfold binv_of; destruct (fd_ty fd); try reflexivity;
+          rewrite (arg_tuples_objs P P' _ eq_refl); reflexivity).
+    destruct map_facts as (_ & _ & _ & Hty).
+    assert (G : forall fls, (forall fd, In fd fls -> In fd (p_fluents P)) ->
+                flat_map (binv_of P) (n_fluents nmap fls) = flat_map (binv_of P) fls).
+    { induction fls as [|fd fls IH]; intros Hsub; [reflexivity|]. unfold n_fluents in *. cbn [flat_map].
+      rewrite flat_map_app, IH by (intros fd0 H0; apply Hsub; right; exact H0). f_equal.
+      cbn [flat_map]. destruct (ngf (fd_id fd)) as [nf|] eqn:En; cbn [flat_map]; rewrite ?app_nil_r; [|reflexivity].
+      unfold binv_of at 2. cbn [fd_ty]. rewrite (Hty fd nf (Hsub fd (or_introl eq_refl)) En). rewrite app_nil_r. reflexivity. }
+    apply G. auto.
+  Qed.
+
+  Lemma clean_num_node q : clean nmap (num_node q) = true.
+  Proof. unfold num_node. destruct (Z.pos (Qden (this q)) =? 1)%Z; reflexivity. Qed.
+  Lemma clean_value_expr v : clean nmap (value_expr v) = true.
+  Proof. destruct v; try reflexivity. apply clean_num_node. Qed.
+  Lemma clean_value_exprs a : forallb (clean nmap) (map value_expr a) = true.
+  Proof. induction a as [|v a IH]; [reflexivity|]. cbn [map forallb]. rewrite clean_value_expr, IH. reflexivity. Qed.
+
+  Lemma bound_invs_clean : forallb (clean nmap) (bound_invs P) = true.
+  Proof.
+    apply forallb_forall. intros e He. rewrite bound_invs_binv in He. apply in_flat_map in He.
+    destruct He as [fd [Hfd He]]. destruct map_facts as (_ & _ & Hnn & _). specialize (Hnn fd Hfd).
+    unfold binv_of in He. destruct (fd_ty fd) as [|lo hi|]; try (destruct He; fail).
+    apply in_flat_map in He. destruct He as [a [_ He]]. cbv zeta in He. apply in_app_or in He.
+    destruct He as [He|He].
+    - destruct lo as [l|]; [|destruct He]. destruct He as [<-|[]]. cbn [clean].
+      rewrite clean_num_node, Hnn, clean_value_exprs. reflexivity.
+    - destruct hi as [h|]; [|destruct He]. destruct He as [<-|[]]. cbn [clean].
+      rewrite clean_num_node, Hnn, clean_value_exprs. reflexivity.
+  Qed.
+
+  Lemma invariants_rel t t' : neg_rel nmap t t' -> invariants_ok false P' t' = invariants_ok false P t.
+  Proof.
+    intros HR. unfold invariants_ok. rewrite bound_invs_neg, !all_hold_app'.
+    pose proof (nrel_mk t t' [] HR) as HI. f_equal.
+    - change (p_invs P') with (filter (fun i => negb (is_true i)) (map (fun i => smp (rw i)) (p_invs P))).
+      rewrite all_hold_filter_true. apply all_hold_map_rel. intros x Hx. rewrite Hsmp.
+      apply Hrw; [apply in_conds_inv; exact Hx | exact HI].
+    - apply all_hold_clean; [exact HI | exact bound_invs_clean].
+  Qed.
+
+  (* ---- one step: the compiled action is applicable exactly when the original one is, and the successors are
+     related again *)
+  Definition orel (o o' : option state) : Prop :=
+    match o, o' with Some t, Some t' => neg_rel nmap t t' | None, None => True | _, _ => False end.
+
+  Theorem neg_step s s' aid a args : neg_rel nmap s s' -> In (aid, a) (p_actions P) ->
+    orel (spec_step false P s a args) (spec_step false P' s' (n_action nmap rw smp a) args).
+  Proof.
+    intros HR Hin. rewrite !spec_step_eq.
+    change (a_params (n_action nmap rw smp a)) with (a_params a).
+    change (a_effs (n_action nmap rw smp a)) with (n_effects nmap rw smp (a_effs a)).
+    pose proof (nrel_mk s s' (zip_params (a_params a) args) HR) as HI.
+    rewrite (pre_rel _ _ aid a HI Hin).
+    destruct (all_hold false (mk_interp P s (zip_params (a_params a) args)) (a_pre a)) eqn:Epre; cbn [negb]; [|exact I].
+    rewrite (n_effects_fired _ _ _ HI (action_eff_hyp aid a Hin)).
+    destruct (fired false (mk_interp P s (zip_params (a_params a) args)) (a_effs a)) as [acts|] eqn:EF; [|exact I].
+    pose proof (fired_good s aid a args acts Hin Epre EF) as Hg.
+    rewrite (effects_ok_rel s s' acts HR Hg). destruct (negb (spec_effects_ok P s acts)); [exact I|].
+    pose proof (succ_rel s s' acts HR Hg) as HS. rewrite (invariants_rel _ _ HS).
+    destruct (invariants_ok false P (spec_succ P s acts)); [exact HS | exact I].
+  Qed.
+
+  Lemma neg_lookup aid : lookup_action P' aid = option_map (n_action nmap rw smp) (lookup_action P aid).
+  Proof.
+    unfold lookup_action. change (p_actions P') with (map (fun ia => (fst ia, n_action nmap rw smp (snd ia))) (p_actions P)).
+    induction (p_actions P) as [|[k a] l IH]; [reflexivity|]. cbn [map lookupN fst snd].
+    destruct (aid =? k)%N; [reflexivity | exact IH].
+  Qed.
+
+  Theorem neg_run pi : forall s s', neg_rel nmap s s' ->
+    orel (run P (spec_step false P) s pi) (run P' (spec_step false P') s' pi).
+  Proof.
+    induction pi as [|[aid args] pi IH]; intros s s' HR; cbn [run]; [exact HR|].
+    rewrite neg_lookup. destruct (lookup_action P aid) as [a|] eqn:EL; cbn [option_map]; [|exact I].
+    pose proof (neg_step s s' aid a args HR (lookupN_In _ _ _ EL)) as HS. unfold orel in HS.
+    destruct (spec_step false P s a args) as [t|];
+      destruct (spec_step false P' s' (n_action nmap rw smp a) args) as [t'|]; try (destruct HS; fail).
+    - apply IH. exact HS.
+    - exact I.
+  Qed.
+
+  Theorem neg_valid_plan s s' pi : neg_rel nmap s s' -> valid_plan false P' s' pi = valid_plan false P s pi.
+  Proof.
+    intros HR. unfold valid_plan. pose proof (neg_run pi s s' HR) as H. unfold orel in H.
+    destruct (run P (spec_step false P) s pi) as [t|]; destruct (run P' (spec_step false P') s' pi) as [t'|];
+      try (destruct H; fail); [apply goals_rel; exact H | reflexivity].
+  Qed.
 End NegProofs.
+
+(* ---- [ncr_safe] is a decidable sufficient condition for [ncr_const] and [one_value] *)
+Lemma ncr_safe_const nmap P : ncr_safe nmap P = true -> ncr_const nmap P = true.
+Proof.
+  unfold ncr_safe, ncr_const. rewrite !forallb_forall. intros H ia Hia. specialize (H ia Hia).
+  unfold action_safe, action_const in *. rewrite forallb_forall in *. intros e He. specialize (H e He).
+  destruct (ng nmap (e_fl e)); [|reflexivity]. apply andb_true_iff in H. destruct H as [-> H].
+  destruct (const_bool (e_val e)); [reflexivity | discriminate].
+Qed.
+
+Lemma ncr_safe_one_value nmap P : ncr_safe nmap P = true -> one_value nmap P.
+Proof.
+  intros Hs s aid a args acts Hin _ HF x y Hx Hy Hn Hk.
+  rewrite fired_eres, collect_res_spec in HF.
+  destruct (has_err (eres (mk_interp P s (zip_params (a_params a) args)) (a_effs a))); [discriminate|].
+  inversion HF; subst acts. clear HF.
+  destruct (in_acts_eres _ _ x Hx) as [e [He Hxe]]. destruct (in_acts_eres _ _ y Hy) as [e2 [He2 Hye]].
+  destruct (piece_keys _ e x Hxe) as (Kf & _ & Kv). destruct (piece_keys _ e2 y Hye) as (Kf2 & _ & Kv2).
+  unfold ncr_safe in Hs. rewrite forallb_forall in Hs. specialize (Hs _ Hin). cbn [snd] in Hs.
+  unfold action_safe in Hs. rewrite forallb_forall in Hs. specialize (Hs e He).
+  rewrite Kf in Hn. destruct (ng nmap (e_fl e)); [|contradiction]. apply andb_true_iff in Hs. destruct Hs as [_ Hs].
+  destruct (const_bool (e_val e)) as [b|] eqn:Eb; [|discriminate]. rewrite forallb_forall in Hs. specialize (Hs e2 He2).
+  assert (Ef : e_fl e2 = e_fl e) by (rewrite <- Kf, <- Kf2, Hk; reflexivity). rewrite Ef, N.eqb_refl in Hs.
+  destruct (const_bool (e_val e2)) as [b2|] eqn:Eb2; [|discriminate]. apply Bool.eqb_prop in Hs. subst b2.
+  apply const_bool_eq in Eb. apply const_bool_eq in Eb2. rewrite (Kv _ Eb), (Kv2 _ Eb2). reflexivity.
+Qed.
+
+(* the plan-level equation under the decidable hypotheses only (the statement of C06_LA_ncr_sound_goal) *)
+Theorem neg_valid_plan_safe nmap rw smp P :
+  nmap_ok nmap P = true -> problem_clean nmap P = true -> ncr_safe nmap P = true -> rw_ok nmap rw P -> smp_exact smp ->
+  forall s s' pi, neg_rel nmap s s' ->
+    valid_plan false (neg_compile nmap rw smp P) s' pi = valid_plan false P s pi.
+Proof.
+  intros Hm Hc Hs Hr Hsm s s' pi HR.
+  exact (neg_valid_plan nmap rw smp P Hm Hc (ncr_safe_const nmap P Hs) (ncr_safe_one_value nmap P Hs) Hr Hsm s s' pi HR).
+Qed.
+
+(* one step and whole runs under the decidable hypotheses *)
+Theorem neg_step_safe nmap rw smp P :
+  nmap_ok nmap P = true -> problem_clean nmap P = true -> ncr_safe nmap P = true -> rw_ok nmap rw P -> smp_exact smp ->
+  forall s s' aid a args, neg_rel nmap s s' -> lookup_action P aid = Some a ->
+    lookup_action (neg_compile nmap rw smp P) aid = Some (n_action nmap rw smp a) /\
+    orel nmap (spec_step false P s a args) (spec_step false (neg_compile nmap rw smp P) s' (n_action nmap rw smp a) args).
+Proof.
+  intros Hm Hc Hs Hr Hsm s s' aid a args HR HL. split.
+  - rewrite neg_lookup, HL. reflexivity.
+  - exact (neg_step nmap rw smp P Hm Hc (ncr_safe_const nmap P Hs) (ncr_safe_one_value nmap P Hs) Hr Hsm s s' aid a args HR
+             (lookupN_In _ _ _ HL)).
+Qed.
+
+Theorem neg_run_safe nmap rw smp P :
+  nmap_ok nmap P = true -> problem_clean nmap P = true -> ncr_safe nmap P = true -> rw_ok nmap rw P -> smp_exact smp ->
+  forall pi s s', neg_rel nmap s s' ->
+    orel nmap (run P (spec_step false P) s pi)
+              (run (neg_compile nmap rw smp P) (spec_step false (neg_compile nmap rw smp P)) s' pi).
+Proof.
+  intros Hm Hc Hs Hr Hsm pi s s' HR.
+  exact (neg_run nmap rw smp P Hm Hc (ncr_safe_const nmap P Hs) (ncr_safe_one_value nmap P Hs) Hr Hsm pi s s' HR).
+Qed.
+
+(* completeness direction and the equivalence, as implications *)
+Theorem neg_complete nmap rw smp P :
+  nmap_ok nmap P = true -> problem_clean nmap P = true -> ncr_const nmap P = true -> one_value nmap P ->
+  rw_ok nmap rw P -> smp_exact smp ->
+  forall s s' pi, neg_rel nmap s s' ->
+    valid_plan false P s pi = true -> valid_plan false (neg_compile nmap rw smp P) s' pi = true.
+Proof. intros Hm Hc Hk Ho Hr Hsm s s' pi HR H. rewrite (neg_valid_plan nmap rw smp P Hm Hc Hk Ho Hr Hsm s s' pi HR). exact H. Qed.
+
+Theorem neg_complete_safe nmap rw smp P :
+  nmap_ok nmap P = true -> problem_clean nmap P = true -> ncr_safe nmap P = true -> rw_ok nmap rw P -> smp_exact smp ->
+  forall s s' pi, neg_rel nmap s s' ->
+    valid_plan false P s pi = true -> valid_plan false (neg_compile nmap rw smp P) s' pi = true.
+Proof. intros Hm Hc Hs Hr Hsm s s' pi HR H. rewrite (neg_valid_plan_safe nmap rw smp P Hm Hc Hs Hr Hsm s s' pi HR). exact H. Qed.
+
+Theorem neg_same_plans_safe nmap rw smp P :
+  nmap_ok nmap P = true -> problem_clean nmap P = true -> ncr_safe nmap P = true -> rw_ok nmap rw P -> smp_exact smp ->
+  forall s s' pi, neg_rel nmap s s' ->
+    (valid_plan false P s pi = true <-> valid_plan false (neg_compile nmap rw smp P) s' pi = true).
+Proof. intros Hm Hc Hs Hr Hsm s s' pi HR. rewrite (neg_valid_plan_safe nmap rw smp P Hm Hc Hs Hr Hsm s s' pi HR). tauto. Qed.
+
+(* [rw_ok] for the reference rewriting: decidable on the conditions of the problem *)
+Lemma rw_ok_nrw nmap P : forallb (nrw_dom nmap) (conds_of P) = true -> rw_ok nmap (nrw (ng nmap)) P.
+Proof.
+  intros H e He I I' HR. rewrite forallb_forall in H. apply (nrw_exact nmap e I I' HR). apply H. exact He.
+Qed.
+
+(* ---- a concrete instance for the non-vacuity examples: door (fluent 0, negation fluent 5), inside (fluent 1);
+   open: pre not door, door := true;  enter: pre door, inside := true;  close: pre door, door := false;
+   goal inside and not door *)
+Module NegEx.
+  Definition beff (f : N) (v : expr) : effect :=
+    {| e_fl := f; e_args := []; e_val := v; e_cond := EBool true; e_kind := KAssign; e_vars := []; e_isbool := true |}.
+  Definition fl0 (f : N) : expr := EFluent f [].
+  Definition a_open : action := {| a_params := []; a_pre := [ENot (fl0 0)]; a_effs := [beff 0 (EBool true)] |}.
+  Definition a_enter : action := {| a_params := []; a_pre := [fl0 0]; a_effs := [beff 1 (EBool true)] |}.
+  Definition a_close : action := {| a_params := []; a_pre := [fl0 0]; a_effs := [beff 0 (EBool false)] |}.
+  Definition bfd (f : N) : fdecl := {| fd_id := f; fd_sig := []; fd_ty := FBool |}.
+  Definition Pe : problem :=
+    {| p_objs := []; p_ifun := []; p_fluents := [bfd 0; bfd 1];
+       p_actions := [(0%N, a_open); (1%N, a_enter); (2%N, a_close)]; p_goals := [fl0 1; ENot (fl0 0)]; p_invs := [] |}.
+  Definition nm : list (N * N) := [(0%N, 5%N)].
+  Definition idf (e : expr) : expr := e.
+  Definition se : state := fun f a => Some (VBool false).
+  Definition se' : state := fun f a => if (f =? 5)%N then Some (VBool true) else se f a.
+  Definition Pe' : problem := neg_compile nm (nrw (ng nm)) idf Pe.
+  Definition plan : list (N * list value) := [(0%N, []); (1%N, []); (2%N, [])].
+  Lemma rel : neg_rel nm se se'.
+  Proof.
+    split.
+    - intros g args Hg. unfold se'. destruct (g =? 5)%N eqn:E; [|reflexivity].
+      apply N.eqb_eq in E. subst. vm_compute in Hg. discriminate.
+    - intros f nf args Hn. unfold ng, nm in Hn. cbn [lookupN] in Hn.
+      destruct (f =? 0)%N eqn:E; [|discriminate]. inversion Hn; subst. apply N.eqb_eq in E. subst. reflexivity.
+  Qed.
+  Lemma rwok : rw_ok nm (nrw (ng nm)) Pe.
+  Proof. apply rw_ok_nrw. vm_compute. reflexivity. Qed.
+  Lemma smpok : smp_exact idf.
+  Proof. intros e I. reflexivity. Qed.
+End NegEx.
 
 (* ---- the add-after-delete witness: without [ncr_safe] the compiled problem accepts a plan the original rejects.
    f, c true initially; action 0: f := false; if c then f := true (add-after-delete keeps f true, and the mirrored pair
